@@ -371,33 +371,108 @@ Qed.
 
 (* ---- Debug ----------------------------------------------------------------------------------- *)
 
+(* one `next` of the index iterator against the hand model's list: nothing left, or the head of the list and an
+   iterator that drains to its tail (for a Debug impl that takes the first name with `next()` before the loop) *)
+Lemma index_iter_uncons e : forall n i, i + N.of_nat n = 12 ->
+  exists l, iter_loop (fun index _ => index) n i e = Some l /\
+    match l with
+    | [] => exists it', g_eff_index_iter_next (mkEffIter i e) = Some (it', None)
+    | x :: t => exists it', g_eff_index_iter_next (mkEffIter i e) = Some (it', Some x)
+                 /\ forall df, (12 < df)%nat -> iter_drain g_eff_index_iter_next df it' = Some t
+    end.
+Proof.
+  induction n as [|k IH]; intros i Hi.
+  - exists []. split; [reflexivity|]. rewrite (g_eff_index_iter_next_eq e O i Hi). eexists. reflexivity.
+  - destruct (IH (i + 1)) as [l' [Hl' Hn]]; [lia|].
+    rewrite (g_eff_index_iter_next_eq e (S k) i Hi). cbn [iter_loop e_next]. rewrite shl1_u16_small by lia. cbv iota.
+    rewrite Hl'. destruct (e_contains e (N.shiftl 1 i)).
+    + exists (i :: l'). split; [reflexivity|]. eexists. split; [reflexivity|]. intros df Hdf.
+      rewrite (drain_e_next _ _ e (g_eff_index_iter_next_eq e) k (i + 1) df) by lia. exact Hl'.
+    + exists l'. split; [reflexivity|]. rewrite <- (g_eff_index_iter_next_eq e k (i + 1)) by lia. exact Hn.
+Qed.
+
+(* the names after the first: every step appends " | " and the name *)
+Lemma debug_rest_loop {R} (step : N -> list N -> option (lctl (list N) R)) :
+  (forall x acc, step x acc = option_map (fun md => LNext (acc ++ str_bar ++ fst md)) (aget metadata x)) ->
+  forall l j acc, for_list step l acc = option_map (fun b => inl (acc ++ b)) (debug_body (S j) l).
+Proof.
+  intro Hs. induction l as [|x t IH]; intros j acc; cbn [for_list debug_body].
+  - cbn [option_map]. rewrite app_nil_r. reflexivity.
+  - rewrite Hs. destruct (aget metadata x) as [md|]; [|reflexivity]. cbn [option_map]. rewrite (IH (S j)).
+    destruct (debug_body (S (S j)) t) as [rest|]; cbn [option_map]; cbv iota; [|reflexivity].
+    rewrite <- !app_assoc. reflexivity.
+Qed.
+
+(* `for (i, index) in ..enumerate()`: every step appends the name, after " | " unless i = 0 *)
+Lemma debug_enum_loop {R} (step : N * N -> list N -> option (lctl (list N) R)) :
+  (forall j x acc, step (j, x) acc
+     = option_map (fun md => LNext (acc ++ (if j =? 0 then [] else str_bar) ++ fst md)) (aget metadata x)) ->
+  forall l j acc, for_list step (enumerate_from j l) acc = option_map (fun b => inl (acc ++ b)) (debug_body (N.to_nat j) l).
+Proof.
+  intro Hs. induction l as [|x t IH]; intros j acc; cbn [enumerate_from for_list debug_body].
+  - cbn [option_map]. rewrite app_nil_r. reflexivity.
+  - rewrite Hs. destruct (aget metadata x) as [md|]; [|reflexivity]. cbn [option_map]. rewrite IH.
+    replace (N.to_nat (j + 1)) with (S (N.to_nat j)) by lia.
+    destruct (debug_body (S (N.to_nat j)) t) as [rest|]; cbn [option_map]; cbv iota; [|reflexivity].
+    destruct (j =? 0) eqn:Ej.
+    + apply N.eqb_eq in Ej. subst j. change (N.to_nat 0) with O. cbv iota. rewrite <- !app_assoc. reflexivity.
+    + apply N.eqb_neq in Ej. destruct (N.to_nat j) as [|jn] eqn:En; [lia|]. cbv iota. rewrite <- !app_assoc. reflexivity.
+Qed.
+
+Ltac debug_enumerate e :=
+  change (iter_drain g_eff_index_iter_next (S (length metadata)) (g_eff_index_iter e)) with (g_eff_index_iter_items e);
+  rewrite g_eff_index_iter_eq;
+  let l := fresh "l" in
+  destruct (e_index_iter e) as [l|]; [|reflexivity]; cbv iota;
+  unfold enumerate0;
+  lazymatch goal with
+  | |- context [for_list ?F _ _] =>
+      rewrite (debug_enum_loop F)
+        by (let j := fresh "j" in intros j ? ?; unfold fmt_write_str, md_name, str_bar; cbv beta iota zeta;
+            destruct (j =? 0); cbn [negb]; cbv beta iota zeta;
+            destruct (aget metadata _); cbn [option_map]; cbv beta iota zeta; rewrite <- ?app_assoc; reflexivity)
+  end;
+  change (N.to_nat 0) with O;
+  destruct (debug_body 0 l) as [body|]; cbn [option_map]; cbv iota; [|reflexivity];
+  unfold fmt_write_str, str_effects_open, str_close; rewrite <- !app_assoc; reflexivity.
+
+Ltac debug_first_then_rest e :=
+  let l := fresh "l" in let Hl := fresh "Hl" in let Hn := fresh "Hn" in
+  destruct (index_iter_uncons e 12 0 eq_refl) as [l [Hl Hn]];
+  unfold e_index_iter; change (length metadata) with 12%nat; rewrite Hl;
+  change (g_eff_index_iter e) with (mkEffIter 0 e);
+  let x := fresh "x" in let t := fresh "t" in let it' := fresh "it'" in let Hd := fresh "Hd" in
+  destruct l as [|x t];
+  [ destruct Hn as [it' Hn]; rewrite Hn; cbv beta iota zeta;
+    unfold fmt_write_str, str_effects_open, str_close; cbn [debug_body option_map app]; cbv beta iota;
+    rewrite <- ?app_assoc; reflexivity
+  | destruct Hn as [it' [Hn Hd]]; rewrite Hn; cbv beta iota zeta;
+    rewrite Hd by (cbn; lia); cbv beta iota zeta;
+    cbn [debug_body]; unfold md_name;
+    let md := fresh "md" in
+    destruct (aget metadata x) as [md|]; [|reflexivity]; cbv beta iota zeta;
+    lazymatch goal with
+    | |- context [for_list ?F _ _] =>
+        rewrite (debug_rest_loop F) with (j := O)
+          by (intros; unfold fmt_write_str, md_name, str_bar; cbv beta iota zeta;
+              destruct (aget metadata _); cbn [option_map]; cbv beta iota zeta; rewrite <- ?app_assoc; reflexivity)
+    end;
+    destruct (debug_body 1 t) as [rest|]; cbn [option_map]; cbv beta iota zeta; [|reflexivity];
+    unfold fmt_write_str, str_effects_open, str_close; rewrite <- ?app_assoc; reflexivity ].
+
 (* <Effects as Debug>::fmt appends the hand model's text to what the formatter holds and answers Ok(()) *)
 Lemma g_eff_debug_fmt_eq e f :
   g_eff_debug_fmt e f = option_map (fun t => (f ++ t, inl tt)) (e_debug e).
 Proof.
   unfold g_eff_debug_fmt, e_debug. cbv zeta.
-  change (iter_drain g_eff_index_iter_next (S (length metadata)) (g_eff_index_iter e)) with (g_eff_index_iter_items e).
-  rewrite g_eff_index_iter_eq. destruct (e_index_iter e) as [l|]; [|reflexivity]. cbv iota.
-  match goal with |- context [for_list ?F _ _] => set (step := F) end.
-  assert (L : forall l j acc,
-            for_list step (enumerate_from j l) acc
-            = option_map (fun b => inl (acc ++ b)) (debug_body (N.to_nat j) l)).
-  { clear. induction l as [|index t IH]; intros j acc; cbn [enumerate_from for_list debug_body].
-    - cbn [option_map]. rewrite app_nil_r. reflexivity.
-    - unfold step at 1. cbv beta iota zeta. unfold fmt_write_str, md_name.
-      destruct (aget metadata index) as [md|].
-      2:{ destruct (j =? 0); reflexivity. }
-      cbv iota. destruct (j =? 0) eqn:Ej; cbn [negb].
-      + apply N.eqb_eq in Ej. subst j. rewrite IH. change (N.to_nat (0 + 1)) with 1%nat. change (N.to_nat 0) with O.
-        destruct (debug_body 1 t) as [rest|]; cbn [option_map]; cbv iota; [|reflexivity].
-        rewrite <- app_assoc. reflexivity.
-      + apply N.eqb_neq in Ej. rewrite IH. replace (N.to_nat (j + 1)) with (S (N.to_nat j)) by lia.
-        destruct (N.to_nat j) as [|jn] eqn:En; [lia|].
-        destruct (debug_body (S (S jn)) t) as [rest|]; cbn [option_map]; cbv iota; [|reflexivity].
-        rewrite <- !app_assoc. reflexivity. }
-  unfold enumerate0. rewrite L. change (N.to_nat 0) with O.
-  destruct (debug_body 0 l) as [body|]; cbn [option_map]; cbv iota; [|reflexivity].
-  unfold fmt_write_str, str_effects_open, str_close. rewrite <- !app_assoc. reflexivity.
+  lazymatch goal with
+  | |- context [enumerate0] =>
+      (* `for (i, index) in self.index_iter().enumerate()` with the separator chosen by `i != 0` *)
+      debug_enumerate e
+  | |- context [g_eff_index_iter_next (g_eff_index_iter e)] =>
+      (* the first name taken with `next()`, the others in a loop that writes the separator first *)
+      debug_first_then_rest e
+  end.
 Qed.
 
 (* `format!("{:?}", effects)`: an empty formatter, the text it holds afterwards *)
